@@ -2,6 +2,7 @@ CONSTANTS
   Logs = FALSE
   RecordHist = FALSE
   MaxInt = 2
+  Grow = FALSE
   AllowDie = TRUE
 SPECIFICATION Spec
 INVARIANT A_C01_Keys
